@@ -413,6 +413,11 @@ pub fn narrow_point_kind() -> impl Strategy<Value = u32> {
         1 => Just(pt::HIST_RECORD),
         1 => Just(pt::HIST_SCAN),
         1 => Just(pt::LOCK_DEP_STATE),
+        2 => Just(pt::CTX_PUBLISH_COMMIT),
+        1 => Just(pt::CTX_PUBLISH_FINALITY),
+        1 => Just(pt::CTX_UNCONFIRMED),
+        1 => Just(pt::COMMIT_DEP),
+        1 => Just(pt::EXEC_KEY_TX),
     ]
 }
 
@@ -691,6 +696,7 @@ pub fn policy_scenario(g: &GenCfg) -> BoxedStrategy<Scenario> {
                 sc.world.eoas[i].nonce = sc.world.eoas[i].nonce.min(50);
             }
             let deleg_ids: Vec<u8> = delegs.iter().map(|(i, _, _)| *i % senders).collect();
+            let sc_spec_prague = sc.spec >= SPEC_PRAGUE;
             for (k, t) in sc.txs.iter_mut().enumerate() {
                 let (kind, di, sel, value, gas) = shape[k % shape.len()];
                 let dacc = deleg_ids[di as usize % deleg_ids.len()];
@@ -707,6 +713,18 @@ pub fn policy_scenario(g: &GenCfg) -> BoxedStrategy<Scenario> {
                         t.to = TxTo::Call(AddrRef::Eoa(dacc));
                         t.sel = sel;
                         t.value = if value % 3 == 0 { ValueDef::Wei(value) } else { ValueDef::Zero };
+                        // a third of them carry an authorisation list of existing accounts (the
+                        // forced revert must keep its effects and its refund)
+                        if kind == 3 && sc_spec_prague {
+                            t.tx_type = 4;
+                            t.chain = 1;
+                            t.prio = Some(1);
+                            let who = (dacc + 1 + sel % 3) % senders;
+                            t.auths = vec![AuthDef { authority: Some(who), target: Some(AddrRef::Con(0)), nonce: AuthNonce::Correct, chain: 1 }];
+                            if value % 2 == 1 {
+                                t.auths.push(AuthDef { authority: Some((who + 1) % senders), target: Some(AddrRef::Con(0)), nonce: AuthNonce::Correct, chain: 0 });
+                            }
+                        }
                     }
                     // the delegated account sends an ordinary transaction later
                     4..=6 => {
@@ -727,8 +745,43 @@ pub fn policy_scenario(g: &GenCfg) -> BoxedStrategy<Scenario> {
                         t.to = TxTo::Create(sel % INIT_KINDS);
                         t.value = ValueDef::Zero;
                     }
-                    _ => {}
+                    // create transaction of someone else whose init code runs the delegated account's code
+                    _ => {
+                        t.sender = (dacc + 1 + (k as u8 % (senders.max(2) - 1))) % senders;
+                        t.to = TxTo::Create(7 + dacc.min(2));
+                        t.value = ValueDef::Zero;
+                        t.gas = GasDef::Limit(400_000);
+                    }
                 }
+            }
+            // boundary balances: 40% of the delegated accounts start with exactly the maximum cost
+            // of their own transactions plus one of the amounts the actor routines send away, so
+            // that a delegated debit lands exactly on (or one unit next to) the reserve requirement
+            for (n, (idx, units, _)) in delegs.iter().enumerate() {
+                if units % 5 >= 2 {
+                    continue;
+                }
+                let i = *idx % senders;
+                let mut cost = 0u64;
+                for t in &sc.txs {
+                    if t.sender == i && t.tx_type != 4 && matches!(t.nonce, NoncePolicy::Correct) {
+                        let gas = match t.gas {
+                            GasDef::Limit(g) => g,
+                            _ => 0,
+                        };
+                        let value = match t.value {
+                            ValueDef::Wei(v) => v,
+                            _ => 0,
+                        };
+                        cost = cost.saturating_add(gas).saturating_add(value);
+                    }
+                }
+                let extra = shape[n % shape.len()].3;
+                let nudge = match units % 7 {
+                    0 => 1,
+                    _ => 0,
+                };
+                sc.world.eoas[i as usize].balance = Bal::Wei(cost.saturating_add(extra).saturating_sub(nudge));
             }
             sc
         })
@@ -868,7 +921,7 @@ pub fn destroy_race_scenario(g: &GenCfg) -> BoxedStrategy<Scenario> {
     g2.fund_pm = 0;
     g2.min_txs = 4;
     g2.max_txs = g.max_txs.max(6);
-    (scenario(&g2), 0u8..4, any::<bool>(), any::<bool>(), 0u8..6, proptest::collection::vec(0u8..3, 6), 0u8..INIT_KINDS, 0u8..2)
+    (scenario(&g2), 0u8..4, any::<bool>(), any::<bool>(), 0u8..7, proptest::collection::vec(0u8..3, 6), 0u8..INIT_KINDS, 0u8..2)
         .prop_map(|(mut sc, guard, polarity, final_destroys, variant, gaps, init, salt)| {
             if sc.txs.len() < 4 || sc.world.eoas.len() < 3 {
                 return sc;
@@ -889,6 +942,10 @@ pub fn destroy_race_scenario(g: &GenCfg) -> BoxedStrategy<Scenario> {
                 2 => (Stmt::Create { create2: true, salt, init, value: 0, store: Some((guard + 2) % 5) }, created.clone()),
                 // destroy, then re-create something else in the same transaction
                 3 => (Stmt::Call { kind: CallKind::Call, target: AddrRef::Con(1), value: 0, sel: 1, arg: None, small_gas: false, store: Some((guard + 2) % 5) }, AddrRef::Con(1)),
+                // a legacy pre-state account with storage but neither code nor nonce lives at the CREATE2
+                // address (possible for contracts deployed with empty code before Spurious Dragon):
+                // the conditional CREATE2 succeeds over it and must reset its storage
+                6 => (Stmt::Create { create2: true, salt, init, value: 0, store: Some((guard + 2) % 5) }, created.clone()),
                 // a PRE-STATE contract with storage lives at the CREATE2 address: calling it destroys
                 // it (its runtime is the self-destructor), a later routine re-creates it
                 _ => (Stmt::Call { kind: CallKind::Call, target: created.clone(), value: 0, sel: 0, arg: None, small_gas: false, store: None }, created.clone()),
@@ -911,7 +968,7 @@ pub fn destroy_race_scenario(g: &GenCfg) -> BoxedStrategy<Scenario> {
                 ]),
             };
             if placed_variant {
-                sc.world.placed = vec![PlacedDef { at: created.clone(), balance: Bal::Wei(3), storage: vec![(0, 5), (1, 9), (3, 2)], runtime: 1 }];
+                sc.world.placed = vec![PlacedDef { at: created.clone(), balance: Bal::Wei(3), storage: vec![(0, 5), (1, 9), (3, 2)], runtime: if variant == 6 { 2 } else { 1 } }];
                 // re-creation needs the account to be really gone: pre-Cancun self-destruct
                 if sc.spec >= SPEC_CANCUN {
                     sc.spec = SPEC_SHANGHAI;
